@@ -31,7 +31,7 @@ def run(repo, rep):
     rep.assumptions = ['CPython GIL: single dict / list operations are atomic', 'functools.singledispatch trusted']
     n_inv, cone, shared, sites, cone_sites = SS.check_write_inventory(repo, rep, 'C20.b')
     rep.floor('C20.b', n_inv, 4)
-    rep.floor('C20.b:promotion', SS.promotion_consistency(repo, rep, 'C20.b'), 8)
+    rep.floor('C20.b:promotion', SS.promotion_consistency(repo, rep, 'C20.b'), 3)
     rep.floor('C20.d', SS.fresh_visited(repo, rep, 'C20.d'), 8)
     lock_names = {name for (_, name) in SS.locks(repo)}
     rep.analysed['locks'] = sorted(lock_names)
@@ -92,22 +92,16 @@ def run(repo, rep):
         par = enclosing_map(f.node)
         for p in sorted(pops, key=lambda c: c.lineno):
             n += 1
-            blk = _block_containing(p, f.node)
-            idx = next(i for i, st in enumerate(blk) if p in list(ast.walk(st)))
-            before = blk[:idx]
-            published = any(isinstance(c, ast.Call) and isinstance(c.func, ast.Call) and call_name(c.func) == 'register_pretty'
-                            for st in before for c in ast.walk(st))
-            same_stmt = any(isinstance(c, ast.Call) and isinstance(c.func, ast.Call) and call_name(c.func) == 'register_pretty'
-                            for c in ast.walk(blk[idx]))
-            tolerant = len(p.args) >= 2
-            rep.check(published and not same_stmt and tolerant, 'C20.a2',
-                      '%s:publish-before-retract@%s' % (f.qualname, 'scan' if any(isinstance(x, ast.For) for x in _anc(p, par)) else 'exact'),
+            rep.check(len(p.args) >= 2, 'C20.a2',
+                      '%s:retract-tolerates-concurrent-retract@%s' % (f.qualname, 'scan' if any(isinstance(x, ast.For) for x in _anc(p, par)) else 'exact'),
                       '%s:%d' % (f.module.relpath, p.lineno),
-                      'printer registered for the class before its deferred entry is removed; removal tolerates a concurrent removal',
-                      'the deferred entry is removed %s: a thread arriving in between finds the printer in neither registry '
-                      '(falls back to repr) or the pop raises KeyError' % (
-                          'before the printer is registered for the class' if not published or same_stmt else 'with pop(k) without a default'),
-                      nontrivial=True)
+                      'removal tolerates a concurrent removal (pop with a default)',
+                      'the deferred entry is removed with pop(k) without a default: when two threads promote the same class the second '
+                      'pop raises KeyError', nontrivial=True)
+    # ordering, semantically: in every interpreted registration history the printer registered for a class is, after every
+    # single store mutation, in the live registry or in the deferred store (C15.i)
+    n += SS.promotion_consistency(repo, rep, 'C20.a2', rules=('C15.i',),
+                                  why='a thread arriving in between finds the printer in neither registry (falls back to repr)')
     rep.floor('C20.a2', n, 2)
 
     # ---------------------------------------------------------------- C20.c
